@@ -322,6 +322,12 @@ class Scenario(worlds.World):
                                                  f"that command's frame: {wrote.hex()} ({err or ''} {len(frs)} frame(s), {len(residue or b'')} residual bytes)")
         if len(net.live()) != 1:
             return self._v("single-connection", f"{len(net.live())} live connections at the end")
+        # (only when run on behalf of C14, whose refresh hangs on it) the application has been told: the last connection
+        # notification says connected, and it was issued for the connection that is live now
+        notes = [(o[0], o[1]) for o in self.obs if o[1] in ("connected", "disconnected")]
+        if self.p.get("notify_clause") and (not notes or notes[-1][1] != "connected" or notes[-1][0] < net.live()[0].opened_at):
+            return self._v("connected-notification", f"connection {net.live()[0].cid} has been up since t={net.live()[0].opened_at} and works, "
+                                                     f"but the last connection notifications were {notes[-3:]}")
         reports = self.loop_reports()
         if reports:
             return self._v("no-unhandled-exception", f"event loop exception handler got: {reports[:2]}")
